@@ -434,7 +434,7 @@ def build(repo, trace):
     fns = ['BulkOutput::new', 'BulkOutput::borrow', 'ShapeBulkEval::eval_raw', 'ShapeBulkEval::eval', 'ShapeBulkEval::eval_with_transform', 'ShapeBulkEval::no_vars', 'ShapeTape::vars', 'ShapeTracingEval::eval_raw', 'ShapeTracingEval::eval', 'ShapeTracingEval::eval_with_transform',
            'ShapeTracingEval::eval_with_transform_and_vars', 'ShapeTracingEval::eval_with_vars']
     obls = [Obligation('shape::' + f, 'shape', f, props=PROPS) for f in fns]
-    obls += [Obligation('shape::<%s as Transformable>::transform' % T, 'shape', '*%s::transform' % T, props=['C14']) for T in ('Interval', 'Grad')]
+    obls += [Obligation('shape::<%s as Transformable>::transform' % T, 'shape', '*%s::transform' % T, props=['C14', 'C03' if T == 'Interval' else 'C05']) for T in ('Interval', 'Grad')]
     return {'texts': {'base': inj.s}, 'obligations': obls, 'canary_fns': ['ShapeTracingEval::eval_raw', 'ShapeTracingEval::eval', 'ShapeBulkEval::eval_raw', 'ShapeBulkEval::eval']}
 
 
